@@ -75,7 +75,10 @@ class Logger:
 
     def log_node(self, node: Any) -> str:
         """Log fcp node."""
-        lines = self.sources[Path(node.meta.filename).name].split("\n")
+        source = self.sources.get(node.meta.filename)
+        if source is None:
+            source = self.sources[Path(node.meta.filename).name]
+        lines = source.split("\n")
         return self.log_location(
             lines[node.meta.line - 1],
             node.meta.line,
